@@ -197,6 +197,19 @@ def write_dataset(root, world, storage):
                         "mask": None,
                     }
                 )
+                if st.get("also"):
+                    x, y, w, h = st["also"]["roi"]
+                    obj_ann_rows.append(
+                        {
+                            "token": "oab%03d_%05d" % (ai, i),
+                            "sample_data_token": sd_of[(st["also"]["cam"], i)],
+                            "instance_token": itok,
+                            "category_token": cat_token[a["category"]],
+                            "attribute_tokens": [attr_token[n] for n in a.get("attrs", [])],
+                            "bbox": [int(x), int(y), int(x + w), int(y + h)],
+                            "mask": None,
+                        }
+                    )
             continue
         inst_rows.append(
             {
